@@ -114,12 +114,12 @@ func BoltRef(c Case, unitV2 bool) vref.BoltFrame {
 
 // BoltBuild is Adapter.Build for bolt / boltv2.
 func BoltBuild(unitV2 bool) func(c Case) (in, want []byte) {
-	return func(c Case) (in, want []byte) {
+	return CacheBuild(func(c Case) (in, want []byte) {
 		f := BoltRef(c, unitV2)
 		in = f.Encode()
 		f.ID = uint32(c.NewID)
 		return in, f.Encode()
-	}
+	})
 }
 
 // BoltRefView is Adapter.RefView for bolt / boltv2.
